@@ -94,6 +94,17 @@ theorem coinbase_accounting (law : QueueLaw ops) (e : Env) (pool : List Tx) (fue
     rw [h.sigs]
     simp [txsOf, candidate, templateOf]
 
+/-- The template carries a witness commitment exactly when a selected transaction has witness data. -/
+theorem commitment_iff_witness (law : QueueLaw ops) (e : Env) (pool : List Tx) (fuel : Nat)
+    (hp : PoolOk pool) (he : EnvOk e) :
+    (candidate ops e pool fuel).commitment = true
+      ↔ ∃ t ∈ txsOf pool (candidate ops e pool fuel).sel, t.hasWitness = true := by
+  have h := runSelect_inv hp he law fuel (e := e)
+  constructor
+  · exact h.wiOnly
+  · rintro ⟨t, ht, hw⟩
+    exact ((h.txsOk t ht).2.2.2 hw).2
+
 /-- With a source that reports real fees the reported fees and the coinbase value equal the
 independently computed ones (inputs − outputs of every transaction in block context). -/
 theorem coinbase_accounting_real (law : QueueLaw ops) (e : Env) (pool : List Tx) (fuel : Nat)
